@@ -136,6 +136,20 @@ impl Samples for RawVariants {
     fn candidates() -> Vec<Self> { vec![RawVariants::r#type, RawVariants::r#Match(1), RawVariants::Plain { r#loop: -3 }] }
 }
 
+// explicit discriminants out of declaration order: serde numbers variants by position, whatever `= N` says
+#[derive(Serialize, Schema)] enum Discr { Stop = 0xFF, Start = 1, Pause = 2 }
+#[derive(Serialize, Schema)] #[repr(u8)] enum DiscrData { Data(u32) = 2, Ack = 1, Pair(u8, bool) = 7, Next }
+impl Samples for Discr {
+    fn max_sample() -> Self { Discr::Pause }
+    fn rand(r: &mut Rng) -> Self { let mut c = Self::candidates(); let k = r.below(3) as usize; c.swap_remove(k) }
+    fn candidates() -> Vec<Self> { vec![Discr::Stop, Discr::Start, Discr::Pause] }
+}
+impl Samples for DiscrData {
+    fn max_sample() -> Self { DiscrData::Data(u32::MAX) }
+    fn rand(r: &mut Rng) -> Self { let mut c = Self::candidates(); let k = r.below(4) as usize; c.swap_remove(k) }
+    fn candidates() -> Vec<Self> { vec![DiscrData::Data(300), DiscrData::Ack, DiscrData::Pair(1, true), DiscrData::Next] }
+}
+
 pub fn gen_c14(r: &mut Rng, thorough: bool, out: &mut Vec<String>) {
     let n = if thorough { 40 } else { 4 };
     gen_schemaof(out);
@@ -159,7 +173,7 @@ pub fn for_each_corpus_type(r: &mut Rng, n: usize, out: &mut Vec<String>, dynami
         nalgebra::SMatrix<f32, 2, 2>, nalgebra::SMatrix<u8, 2, 3>, nalgebra::SMatrix<i16, 3, 1>, nalgebra::SMatrix<f64, 1, 1>,
         postcard_schema::key::Key, OwnedDataModelType, &'static postcard_schema::schema::DataModelType, Vec<OwnedDataModelType>,
         UnitS, NewS, TupS, Tup0, Named0, Point, GenS<u8, String>, GenS<Point, Option<u16>>, Life<'static>, Nested, AllKinds, OneVar,
-        GenE<u8>, GenE<Point>, GenE<GenE<String>>, r#RawName, RawFields, RawVariants, Vec<AllKinds>, Option<Nested>, BTreeMap<String, AllKinds>,
+        GenE<u8>, GenE<Point>, GenE<GenE<String>>, r#RawName, RawFields, RawVariants, Discr, DiscrData, Vec<AllKinds>, Option<Nested>, BTreeMap<String, AllKinds>,
     );
     crate::generated_schema::generated_schema_lines(r, n, out, dynamic);
 }
@@ -284,6 +298,8 @@ pub fn rty_entries() -> Vec<(String, String)> {
     rty!(v, "(dstruct r#RawName (named (plain u8)))", r#RawName);
     rty!(v, "(dstruct RawFields (named (r#type u8) (r#fn u16) (plain bool)))", RawFields);
     rty!(v, "(denum RawVariants (r#type unit) (r#Match (unnamed u8)) (Plain (named (r#loop i8))))", RawVariants);
+    rty!(v, "(denum Discr (Stop unit) (Start unit) (Pause unit))", Discr);
+    rty!(v, "(denum DiscrData (Data (unnamed u32)) (Ack unit) (Pair (unnamed u8 bool)) (Next unit))", DiscrData);
     v.extend(crate::generated_schema::generated_rty_entries());
     v
 }
